@@ -1484,7 +1484,7 @@ class SymEx:
             vals = [self.eval(st, a) for a in args if a.op != 'defaultarg']
             sid = self.fresh('fstream')
             self.effect(st, 'open', stream=sid, path=vals[0] if vals else None, type=t,
-                        where=e.where())
+                        where=e.where(), node=e.cid)
             return ('stream', sid)
         if 'stringstream' in t:
             return ('stream', self.fresh('sstream'))
